@@ -191,6 +191,7 @@ func (w *world) forkAbove(k, n int, firstTs uint64) bool {
 	// the twin's answers about the blocks above k are those of the old fork
 	w.ch.cacheMu.Lock()
 	w.ch.twinState, w.ch.twinQ, w.ch.twinLUs = map[string]twinStateRes{}, map[string]twinQRes{}, map[string]luRes{}
+	w.ch.histKeys = nil
 	w.ch.cacheMu.Unlock()
 	head := g.Head()
 	saved := head.Block.Timestamp
